@@ -361,7 +361,11 @@ def check_property(pid, tier, seed, shared=None):
 ASSUMPTIONS = [
     'A-kernel: the system-call contracts of prelude/root_20_std.rs, root_25_path.rs, root_27_xattr.rs (every external_body there) are assumed, not proved',
     'A-stable: no other process modifies sources or destinations during the run',
-    'A-pool/A-walk/A-drop: thread pool runs each job once; WalkDir delivers a fixed finite sequence of items per root (walk_seq); Drop runs after the last use; a Rust main returning Err exits non-zero',
+    'A-pool/A-drop: thread pool runs each job once; Drop runs after the last use; a Rust main returning Err exits non-zero',
+    'A-walk: with walkdir\'s other settings at their defaults the walk of a root is a fixed finite sequence walk_of(root, follow) that delivers every entry once, a directory before its contents; with follow_links it descends through links to directories, reports the referent\'s type and delivers a loop or a dangling link as an error item; a DirEntry carries the type the walk saw',
+    'A-ignore: the ignore crate decides exclusion (gi_ignored) by git\'s pattern semantics from the root and files the builder was given; walkdir\'s filter_entry applies the filter to every entry and prunes beneath a rejected directory; a .gitignore that cannot be read is dropped by GitignoreBuilder::add without an error xcp sees',
+    'A-probe: Path::exists/is_dir/is_file answer truthfully (std turns any stat failure into false)',
+    'bounded stand-ins (backup-name code, option-value tables, expand_globs) are exhaustive over their stated finite spaces only',
     'A-eintr: a read is interrupted only finitely often (World.eintr_left)',
     'A-off_t: offsets and extent ends fit in i64; usize is 64 bit (global size_of usize == 8)',
     'A-panic: panic! is divergence',
